@@ -228,6 +228,8 @@ pub fn run(tier: Tier, seed: u64) -> i32 {
         let mut menu = normal.clone();
         menu.push(MenuItem { step: crate::driver::Step::Ans(vec![("Q".into(), V::Num(5))]), deviation: true, label: "only Q (=5)".into() });
         menu.push(MenuItem { step: crate::driver::Step::Ans(vec![("Q".into(), V::Num(6)), ("DONE".into(), V::Num(0)), ("Q".into(), V::Num(6))]), deviation: true, label: "Q=6 DONE Q=6".into() });
+        // the right number of outputs in another order: an error item all the same, and Q is what was returned for Q
+        menu.push(MenuItem { step: crate::driver::Step::Ans(vec![("DONE".into(), V::Num(1)), ("Q".into(), V::Num(7))]), deviation: true, label: "DONE=1 Q=7 (swapped)".into() });
         for ov in [true, false] {
             let mut c = Case::new(&format!("answer with the wrong number of outputs, caller carries on ({})", if ov { "Ov" } else { "Fw" }), prog.clone(), sigs.clone(), ov, normal.clone(), menu.clone(), 12);
             c.dev_budget = 1;
